@@ -1321,6 +1321,7 @@ func TestVerifTimersMonitor(t *testing.T) {
 	vtMonDuplicate(t, m, 0) // duplicate of the chunk at the cumulative TSN
 	vtMonDuplicate(t, m, 2) // duplicate of a chunk two behind the cumulative TSN
 	vtMonHeartbeat(t, m, 10*time.Millisecond)
+	vtMonGapAll(t, m, nVar, rng.Perm)
 	for _, mx := range []float64{0, 4000, 1000, 500} {
 		vtMonT1(t, m, mx)
 	}
